@@ -38,6 +38,8 @@ fn fam(name: &str, vk: &[VK], ak: &[AK], k: usize, c: usize, mp: usize, mv: usiz
         max_wide: wide,
         wide_no_atoms: true,
         sym_reduce: true,
+        stages: vec![],
+        assert_split: None,
     }
 }
 
@@ -107,6 +109,8 @@ fn classify(circuit: &p3_circuit::Circuit<F>, nodes: &[p3_circuit::expr::Expr<F>
     if horner_not_row_chained(circuit) {
         return Ok(Some("horner_acc_not_row_chained".into()));
     }
+    // classification uses the per-op view (independent of packing): a packing-specific
+    // imbalance is NOT a known class and must surface as an unexplained failure
     let prim = prepare(circuit)?;
     let ps = ports(circuit, &prim).unwrap_or_else(|e| vpcore::machinery_error(&format!("C10 cannot read preprocessed layout: {e}")));
     let f = audit(&ps, &slot_sources(nodes, circuit));
